@@ -151,6 +151,8 @@ def run_check(pid, cfg, tier, seed, jobs, work, t_start):
         for i in range(k):
             name = f"{prop['test']}-{i}"
             e = dict(base_env, VERIF_SHARD_OUT=os.path.join(work, f"shard-{name}.json"))
+            if cfg.get("race"):
+                e["GOMAXPROCS"] = str([2, 4, 16][i % 3])   # schedule diversity per shard, fixed for the process
             cmd = [binp, "-test.run", "^" + prop["test"] + "$", "-test.v", "-test.timeout=0",
                    f"-rapid.checks={per[i]}", f"-rapid.seed={shard_seed(seed, pi, i)}", "-rapid.nofailfile",
                    f"-rapid.shrinktime={prop.get('shrinktime', '20s')}"]
